@@ -343,7 +343,8 @@ func (ii *invertedIndex) findSeriesIDsByKeyFromMem(key uint32, seriesIDs *roarin
 func (ii *invertedIndex) prepareFlush() {
 	ii.lock.Lock()
 	defer ii.lock.Unlock()
-	if ii.immutable == nil {
+	// an empty batch is never flushed (and so never cleared): only names that wait for a flush are switched
+	if ii.immutable == nil && !ii.mutable.IsEmpty() {
 		ii.immutable = ii.mutable
 		ii.mutable = imap.NewIntMap[*roaring.Bitmap]()
 	}
@@ -556,7 +557,8 @@ func (fi *forwardIndex) withLock() (release func()) {
 func (fi *forwardIndex) prepareFlush() {
 	fi.lock.Lock()
 	defer fi.lock.Unlock()
-	if fi.immutable == nil {
+	// an empty batch is never flushed (and so never cleared): only names that wait for a flush are switched
+	if fi.immutable == nil && !fi.mutable.IsEmpty() {
 		fi.immutable = fi.mutable
 		fi.mutable = imap.NewIntMap[*imap.IntMap[uint32]]()
 	}
